@@ -27,7 +27,10 @@ def sandbox(scratch, tag):
     root = os.path.join(scratch, tag)
     for d in ("r", "r/sib", "r/d", "r/d/sub", "r/cwd"):
         os.makedirs(os.path.join(root, d))
-    for f in ("r/keep.txt", "r/sib/keep.txt", "r/d/sub/keep.txt", "keep-root.txt"):
+    # (files with names the hostile catalogue names can spell, in every directory around the destination: anything that removes or
+    # rewrites what such a name resolves to shows up as a changed or vanished file)
+    for f in ("r/keep.txt", "r/sib/keep.txt", "r/d/sub/keep.txt", "keep-root.txt", "r/a", "r/s", "r/-", "r/aa", "r/sib/a", "r/d/sub/a", "r/d/sub/s", "a", "s",
+              "r/cwd/a", "r/cwd/s"):
         with open(os.path.join(root, f), "w") as fh:
             fh.write("keep " + f)
     return root
@@ -177,17 +180,20 @@ def tmp_leftovers(chk, dfs, scratch, quick):
     for k, p_ in paths.items():
         for cmd in (["cat"], ["info", "#.*"], ["type", "A"], ["free"], ["dump", "B"], ["sector-map"], ["show-titles"], ["extract-files", dest], ["extract-unused", dest]):
             for tmpdir in ((None, "/tmp/sub") if not quick or cmd[0] in ("cat", "type") else (None,)):
-                jobs.append((k, p_, cmd, tmpdir))
+                jobs.append((k, p_, cmd, tmpdir, False))
+            if cmd[0] in ("cat", "type", "dump", "sector-map") and k in ("plain.ssd", "good.ssd.gz"):
+                jobs.append((k, p_, cmd, None, True))         # the reader of standard output goes away at once (dfs ... | true)
 
     def do(ij):
-        i, (k, p_, cmd, tmpdir) = ij
+        i, (k, p_, cmd, tmpdir, closed) = ij
         listing = os.path.join(scratch, "tl-%d.lst" % i)
         script = ("mount -t tmpfs tmpfs /tmp || exit 97; mkdir -p /tmp/sub; " + ("export TMPDIR=%s; " % tmpdir if tmpdir else "unset TMPDIR; ") +
-                  '"$@" >/dev/null 2>&1; rc=$?; (cd /tmp && find . -mindepth 1 ! -path ./sub) > %s; exit $rc' % listing)
+                  ('"$@" 2>/dev/null | true; rc=0; sleep 0.2; ' if closed else '"$@" >/dev/null 2>&1; rc=$?; ') +
+                  '(cd /tmp && find . -mindepth 1 ! -path ./sub) > %s; exit $rc' % listing)
         pr = subprocess.run(["unshare", "-m", "sh", "-c", script, "sh", dfs, "--file", p_] + cmd, stdout=subprocess.PIPE, stderr=subprocess.PIPE, timeout=120)
         left = [x for x in open(listing).read().split("\n") if x] if os.path.exists(listing) else ["(no listing)"]
         return dict(e="run", extracting=0, created=[["<tmp>", x] for x in left], changed=[], image_same=1, clean=1, rc=pr.returncode, cmd=cmd[:2],
-                    err="", disc=-1, variant=k, tmpdir=tmpdir or "")
+                    err="", disc=-1, variant=k, tmpdir=(tmpdir or "") + (" stdout closed" if closed else ""))
     events = common.pmap(do, list(enumerate(jobs)))
     if any(e["rc"] == 97 for e in events):
         # the probe worked but a later mount did not (resource limits): this phase cannot observe anything then; say so, do not guess
